@@ -194,6 +194,102 @@ func runC11(c *mon.Ctx) {
 			})
 		}
 	}
+	// (A4) algorithms 2 / 2.1, room versions whose power levels are not confined to +/-(2^53-1): three users whose levels
+	// lie further apart than an int64 difference can express each send a power-levels event on a fork of their own.
+	// The order of the three by sender power is a total order all the same: one result, for every order of the state
+	// sets and every repetition
+	for _, ver := range versions {
+		t := ref.Traits(string(ver))
+		if t == nil || t.StateRes == 1 || t.IntegerPLs || ver == gmsl.RoomVersionPseudoIDs {
+			continue
+		}
+		for k := 0; k < c.Scale(24, 480); k++ {
+			sr := c.Rand(fmt.Sprintf("extreme-levels-%s-%d", ver, k))
+			// (the users at the middle and the low level are fixed beforehand: everybody joins the public room or not, the
+			// scenario needs both of them in it). Nobody can be given more than the creator's 100, but anybody can be put
+			// arbitrarily far below: 100, -1 and -2^63 are such that 100 - (-2^63) does not fit an int64 while the other
+			// two differences do
+			mid, low := simUsers[1], simUsers[2]
+			lowest := func() *ref.Value {
+				if t.EnforceCanon {
+					return ref.S("-9223372036854775808") // (integers beyond 2^53-1 are no canonical JSON there; the string spelling is)
+				}
+				return gen.Pick(sr, []*ref.Value{ref.I(-9223372036854775808), ref.S("-9223372036854775808")})
+			}
+			top := ref.I(100)
+			midLevel := gen.Pick(sr, []int64{-1, -1, -100, 0})
+			levelsFor := func(creator, extra string) *ref.Value {
+				ev := ref.O("m.room.power_levels", lowest())
+				if extra != "" {
+					ev.Set(extra, lowest())
+				}
+				return ref.O("users", ref.O(creator, top, mid, ref.I(midLevel), low, lowest()), "users_default", ref.I(0), "state_default", ref.I(50), "events_default", ref.I(0), "ban", ref.I(50), "kick", ref.I(50), "invite", ref.I(0), "events", ev)
+			}
+			simInitialPowerLevels = func(creator string) *ref.Value { return levelsFor(creator, "") }
+			var s *sim
+			var trunk *simBranch
+			site, msg, pan := mon.Guard(func() { s, trunk = newSim(sr, ver) })
+			simInitialPowerLevels = nil
+			if pan {
+				c.Count("extreme_level_scenarios_skipped_room_not_buildable")
+				c.Note("extreme-levels room v%s not buildable: %s %s", ver, site, msg)
+				continue
+			}
+			creator := s.users[0]
+			levels := func(extra string) *ref.Value { return levelsFor(creator, extra) }
+			if s.membership(trunk, mid) != "join" || s.membership(trunk, low) != "join" {
+				c.Count("extreme_level_scenarios_skipped_too_few_members")
+				continue
+			}
+			var sets [][]gmsl.PDU
+			ok := true
+			for i, u := range []string{creator, mid, low} {
+				b := trunk.clone()
+				if ev, accepted := s.propose(b, "m.room.power_levels", strp(""), u, levels(""), false); !accepted {
+					// (a user at the bottom can change nothing; an event that repeats the levels as they are is one more
+					// power-levels event all the same, and the three differ in sender and ID)
+					_ = i
+					ok = false
+					if ev != nil {
+						c.Note("extreme-levels v%s: the fork event of %s is refused: %v", ver, u, gmsl.Allowed(ev, s.provider(trunk), userIDForSender))
+					}
+				}
+				sets = append(sets, b.list())
+			}
+			if !ok {
+				c.Count("extreme_level_scenarios_skipped_fork_event_refused")
+				continue
+			}
+			ids := make([]string, 0, len(s.all))
+			for id := range s.all {
+				ids = append(ids, id)
+			}
+			sort.Strings(ids)
+			var auth []gmsl.PDU
+			for _, id := range ids {
+				auth = append(auth, s.all[id])
+			}
+			c.Case("power-levels-further-apart-than-int64:"+string(ver), map[string]any{"version": ver, "levels": []any{100, midLevel, "-2^63"}}, func() {
+				c.Nontrivial(fmt.Sprintf("extreme|%s|%d", ver, k))
+				seen := map[string]int{}
+				for i := 0; i < 10; i++ {
+					for _, perm := range [][3]int{{0, 1, 2}, {0, 2, 1}, {1, 0, 2}, {1, 2, 0}, {2, 0, 1}, {2, 1, 0}} {
+						res, err := gmsl.ResolveConflictsNew(ver, [][]gmsl.PDU{sets[perm[0]], sets[perm[1]], sets[perm[2]]}, auth, userIDForSender, noRej)
+						if err != nil {
+							c.Failf("stateres:error", "%v", err)
+							return
+						}
+						seen[resultKey(res)]++
+						c.Count("resolutions")
+					}
+				}
+				c.Count("repeated_resolutions_with_extreme_power_levels")
+				if len(seen) > 1 {
+					c.Failf(fmt.Sprintf("order-dependence:alg%d:run-to-run:power-levels-further-apart-than-int64", t.StateRes), "v%s: 60 resolutions of the same three state sets (three concurrent power-levels events by users at 100, %d and -2^63) return %d different states: %v", ver, midLevel, len(seen), seen)
+				}
+			})
+		}
+	}
 	// (A3) algorithms 2 / 2.1: a chain of power-level changes on one branch, two of them sent by a user whom the first of
 	// the chain promoted. Only the last is conflicted state; the others are in the auth difference, which the resolver
 	// walks in map order: every one of them has to be replayed, on every run
